@@ -11,7 +11,7 @@ var propC09 = &simProp{
 	ID: "C09",
 	Profile: sim.Profile{
 		Name: "C09", Voters: [2]int{1, 4}, NonVoters: [2]int{0, 1}, Phases: [2]int{2, 7},
-		Patterns: []string{"P10", "P10", "P10", "P10", "P24", "P24", "P21", "free", "free", "P1", "P2", "P3", "P4b", "P6", "P11", "P12", "P9", "stopstart"},
+		Patterns: []string{"P10", "P10", "P10", "P10", "P24", "P24", "P28", "P28", "P21", "free", "free", "P1", "P2", "P3", "P4b", "P6", "P11", "P12", "P9", "stopstart"},
 		Writes:   true, Crashes: true, Stops: true, Membership: true, DiskCheck: true, EpilogueET: 10, Prologue: true,
 	},
 	Owns: []string{"C09", "C01", "C02", "C07"},
